@@ -298,7 +298,7 @@ pub(crate) struct ThreadDealloc {
 
 /// Spawn a thread that will run the provided function
 /// # Errors
-/// Failure to mmap the thread's stack.
+/// Failure to mmap the thread's stack, or to create the thread (`clone`).
 pub fn spawn<T, F>(func: F) -> Result<JoinHandle<T>>
 where
     F: FnOnce() -> T + Send + 'static,
@@ -363,7 +363,7 @@ where
             dealloc(get_tls_ptr().cast(), Layout::new::<ThreadLocalStorage>());
         }
     };
-    let (start_fn, fn_caller) = unsafe { onwed_split_fn_once(df) };
+    let (start_fn, fn_caller, drop_fn) = unsafe { onwed_split_fn_once(df) };
     #[cfg(tiny_std_verif)]
     crate::verif_thread::point(crate::verif_thread::SPAWN_CLOSURE, fn_caller);
     // We need to double box here because
@@ -413,7 +413,7 @@ where
         tsm.get_futex().as_ptr() as usize
     });
     #[expect(clippy::cast_possible_truncation)]
-    unsafe {
+    let clone_res = unsafe {
         __clone(
             start_fn,
             stack,
@@ -423,7 +423,21 @@ where
             tsm.get_futex().as_ptr() as usize,
             map_ptr,
             stack_sz,
-        );
+        )
+    };
+    if clone_res < 0 {
+        // No thread was created, nobody else will ever look at (or release) what was set up
+        // for it, and a `JoinHandle` would wait for an exit that never happens.
+        unsafe {
+            drop(Box::from_raw(tls));
+            let _ = rusl::unistd::munmap(map_ptr, NonZeroUsize::new_unchecked(size));
+            drop_fn(fn_caller);
+            tsm.dealloc();
+        }
+        return Err(crate::error::Error::os(
+            "Failed to clone a new thread",
+            rusl::error::Errno::new(-clone_res),
+        ));
     }
     #[cfg(tiny_std_verif)]
     crate::verif_thread::point(crate::verif_thread::SPAWN_AFTER_CLONE, tsm.0 as usize);
@@ -434,10 +448,15 @@ where
 }
 
 #[inline]
-unsafe fn onwed_split_fn_once<F: FnOnce()>(f: F) -> (usize, usize) {
+unsafe fn onwed_split_fn_once<F: FnOnce()>(f: F) -> (usize, usize, unsafe fn(usize)) {
     let t = start_fn::<F>;
     let d = Box::into_raw(Box::new(f));
-    (t as usize, d as usize)
+    (t as usize, d as usize, drop_fn_once::<F>)
+}
+
+/// Drops a closure boxed by `onwed_split_fn_once` that will never be run
+unsafe fn drop_fn_once<F: FnOnce()>(ptr: usize) {
+    drop(Box::from_raw(ptr as *mut F));
 }
 
 #[repr(C)]
